@@ -81,6 +81,8 @@ MISSED = [
  ("C05-k / C14-k (parsed head scores of the merge inputs memoised at module level by input index)", "every `merge_sort` generator was consumed to the end before the next one started", "C14: a merge left partly consumed (generator kept alive) before the judged one, two merges consumed in lock-step; C05: an abandoned merge of foreign sorted files before the chunked variants"),
  ("C16-k (`read_fasta` memoises digests per sequence, key without `semi`)", "no database was read twice in one process with different digestion settings", "every `seqs` database is read again with exactly one digestion setting changed, then with the first settings again (`history_reads`)"),
  ("C17-k (`digest` returns the `lru_cache` entry itself)", "returned sets were only read", "every fourth call: the returned set is edited in place by the caller and the same call repeated (`result_aliases_internal_state`)"),
+ ("C10-l (header read with plain utf-8 decoding: a byte-order mark stays in the first column name)", "text inputs were always written by pandas without a BOM", "a fifth of the text tables start with a UTF-8 BOM, a fifth use CRLF line endings"),
+ ("C18-l (bytes read without newline translation + `split('\\n')`)", "all databases had LF line endings", "a third of the input databases are written with CRLF line endings"),
  ("C12-d (new scoring block size, last row unscored when n % size == 1)", "the constant did not exist when the monitors were written; tables are far smaller than its default", "tunables are discovered in `mokapot.constants` at run time; C05 adds a variant per discovered constant, C12 a metamorphic refit under small values of it"),
 ]
 seed_rows = ["| seeded change | needs | result |", "|---|---|---|"]
@@ -100,17 +102,22 @@ text = f'''## 12. Which checks catch which changes
 
 ### 12.1 Independently written changes (`/verif/seeded/<id>/`)
 
-Eleven rounds (a-k) of sub-agents were each given only the text of one property and a scratch
+Eleven rounds (a-k) of twenty and a last round (l) of eight sub-agents were each given only the text of one property and a scratch
 worktree and asked for a change that breaks it while the pinned suite keeps passing (rounds d-k
 with the guidance texts `tools/seed_guidance_*.txt`; round k: violations that depend on history,
-state kept between calls and aliasing; round b
+state kept between calls and aliasing; round l: the environment and the form of paths and names; round b
 with the hint to avoid the obvious one-liners; round c steered towards concurrency, failures
 at a particular point, process-level state and option interplay for the pipeline properties,
 and towards argument forms, extreme values and state kept between calls for the function-level
 ones). Every change was confirmed with `tools/seed_eval.py` (demo exits 0 on the unmodified tree
 and 1 on the modified one, no baseline test fails) and the owning quick check was run against
 it. {len(MISSED)} groups of changes were **missed at first** and led to the monitor extensions
-below; all {n} are caught now (verdicts in the second table are from the final state of the
+below; {n - 2} of the {n} are caught now (`C19-l`, the CLI's conversion target `with_suffix(".tsv")`, not by C19's own check, which drives
+`pin_to_valid_tsv` directly, but by C09's `cli_tsv` class, which sees the conversion written under another name); two changes of the last round are **not caught** and are kept
+as open work: `C08-l` (an input list naming the same PIN file twice is collapsed through a `set`, so the dataset order depends on the hash seed: C08's
+tables never name a file twice) and `C13-l` (appends bypass the compression that the header and the reader infer from a `.gz` / `.bz2` file name: C13 only
+uses plain `.csv` / `.tsv` / `.parquet` names). Time ran out before these two extensions could be written and
+validated on the unchanged tree (verdicts in the second table are from the final state of the
 checks at the time each change was evaluated).
 
 {chr(10).join(missed)}
